@@ -56,9 +56,19 @@ def grading_rows_wellformed(self):
         lr, cnt, exp = row
         if not (0 < lr <= 1):
             return False
-        if not _np_ok(cnt, exp):
+        # blockMesh's second number is a cell fraction: the library stores whole counts, hand-filled rows (as in the
+        # repository's own test_output_multi) may hold fractions - both are well-formed as long as they are positive
+        if not (isinstance(cnt, (int, float)) or _is_np_number(cnt)) or not cnt > 0:
+            return False
+        if not (isinstance(exp, (int, float)) or _is_np_number(exp)) or not (math.isfinite(float(exp)) and exp > 0):
             return False
     return True
+
+
+def _is_np_number(x):
+    import numpy as np
+
+    return isinstance(x, (np.integer, np.floating))
 
 
 def grading_error(self):
